@@ -244,7 +244,7 @@ def finish_cases(cases, rng, quick):
         c.setdefault('sched', rng.randrange(1 << 20))
         c.setdefault('cseed', rng.randrange(1 << 16))
         c['trace'] = True
-        c.setdefault('timeout', 240 if c['level'] <= 2 else 600)
+        c.setdefault('timeout', 200 if c['level'] <= 2 else 500)        # CPU seconds (see run_cases)
     return cases
 
 
@@ -485,7 +485,7 @@ def run(ctx: Ctx) -> Outcome:
         for c, r in zip(cases, results):
             if r['status'] == 'timeout':
                 timeouts += 1
-                out.notes.append('NOTE property=C02 case %s (%s n=%d level=%d) did not finish within %d s: undecided' % (c.get('id'), c['kind'], c['n'], c['level'], c['timeout']))
+                out.notes.append('NOTE property=C02 case %s (%s n=%d level=%d) did not finish within %d CPU seconds: undecided' % (c.get('id'), c['kind'], c['n'], c['level'], c['timeout']))
                 continue
             if r['status'] == 'harness-error':
                 raise MachineryError('case %s failed inside the harness: %s\n%s' % (c.get('id'), r['exc'], r.get('tb')))
